@@ -2,6 +2,16 @@
 import json, os
 V = os.path.dirname(os.path.dirname(os.path.abspath(__file__)))
 CLAIMED = {
+ "C06": dict(
+   text="Proof over ALL schedules (lists of non-negative ages of any length, unsorted, with repeats, with ages equal to turn-off times or 0): the integration grid is "
+        "sorted and contains every requested age; row i holds the extraction (with row index i, hence its own BH target) of the flow from 0 to ITS OWN age whenever i is "
+        "the first occurrence of that age; age 0 gives the extraction of the initial state; machine-checked refutation for repeated ages (later rows stay unwritten). The "
+        "solver is an abstract flow with identity and semigroup laws as explicit hypotheses. The same model runs on floats against the real _evolve of both classes "
+        "driven by a stateful stand-in solver (in-place damage to sol.y would carry over), on random schedules; unwritten rows detected with a NaN sentinel.",
+   design="8/C06 + 4", technique="Coq proof by induction over the sorted grid with an abstract flow + exact correspondence on random schedules + alone-vs-schedule oracle",
+   note="Trusted: Coq kernel; Reals axioms; the flow laws are hypotheses (dopri5 satisfies them to its tolerance only: measured with the real solver at 2e-3); harness "
+        "(stand-in solver, sentinel wrapper of np.empty)."),
+
  "C09": dict(
    text="Proof: a linear spline through knots that are positive, at least the table minimum and not above their progenitor stays so for EVERY mass between the first and "
         "last knot (gaps included) and passes through its knots; the integer checks the kernel evaluates on each regenerated table imply those knot conditions with "
